@@ -24,18 +24,15 @@ def propnum(p):
     return int(p.lstrip("C"))
 
 
-PROPS = {
-    "C02": {
-        "engine": "E1 clustersim",
-        "level": "exploration",
-        "quick": {"runs": 48},
-        "thorough": {"runs": 4000, "budget_s": 1500},
-        "chunk": 3,
-        "rule": "one run = seeded client workload (register writes with unique values, linearizable/strong reads via any node) "
-                "on a 3/5-node cluster under seeded partitions, isolations, crashes, restarts, stepdowns; checked with porcupine. "
-                "non-trivial = at least one acked write and one successful read; distinct = distinct event-log hash",
-    },
-}
+import glob, json, os
+
+# One JSON file per property (or group) under bin/props.d/: {"Cnn": {config}}.
+# Config keys: engine, level (exploration|fault_enumeration), mode (gen|enum|enum+gen),
+# quick {runs, budget_s?}, thorough {runs, budget_s?}, chunk, rule, real?, stub?, assumptions?,
+# shrink?, watchdog_s?, level_text?, level_note?, technique?
+PROPS = {}
+for _f in sorted(glob.glob(os.path.join(os.path.dirname(os.path.abspath(__file__)), "props.d", "*.json"))):
+    PROPS.update(json.load(open(_f)))
 
 ENGINES = [
     {"name": "E1 clustersim", "path": "sim/sim", "serves_properties": ["C02"],
